@@ -41,6 +41,9 @@ func (s *single) interval() int64 {
 	if s.bo != nil {
 		return int64(s.bo.last)
 	}
+	if s.cfgKind != 0 && s.cfgLast != 0 {
+		return s.cfgLast
+	}
 	return int64(150 * time.Millisecond)
 }
 
